@@ -9,6 +9,29 @@ namespace Panqec.UF
 set_option linter.unusedSimpArgs false
 set_option linter.unusedVariables false
 
+/-! ### tabulation is the identity -/
+
+theorem tabGet_tabArr {α : Type} (k : Nat) (f : Nat → α) : tabGet (tabArr k f) f = f := by
+  funext i
+  unfold tabGet tabArr
+  by_cases h : i < (Array.ofFn (n := k) fun i => f i.val).size
+  · simp only [h, dite_true]
+    simp
+  · simp only [h, dite_false]
+
+theorem tabGet2_tabArr2 (k : Nat) (f : Nat → Nat → Bool) : tabGet2 (tabArr2 k f) k f = f := by
+  funext i j
+  unfold tabGet2 tabArr2
+  by_cases h : i < k ∧ j < k ∧ i * k + j < (Array.ofFn (n := k * k) fun i => f (i.val / k) (i.val % k)).size
+  · simp only [h, and_self, dite_true]
+    have hk : 0 < k := by omega
+    have h1 : (i * k + j) / k = i := by
+      rw [Nat.mul_comm, Nat.mul_add_div hk, Nat.div_eq_of_lt h.2.1]; rfl
+    have h2 : (i * k + j) % k = j := by
+      rw [Nat.mul_comm, Nat.mul_add_mod, Nat.mod_eq_of_lt h.2.1]
+    simp [h1, h2]
+  · simp only [h, dite_false]
+
 /-! ### counting over `0 … m-1` -/
 
 @[simp] theorem cnt_zero (f : Nat → Bool) : cnt 0 f = 0 := rfl
